@@ -389,6 +389,12 @@ int vmd_server_run(const VmdServerConfig *cfg) {
         fprintf(stderr, "[vmd] Listening on %s (pid %d)\n", sock_path, (int)getpid());
     }
 
+    /* nvm_crc32() builds its lookup table lazily and without synchronisation on
+     * first use.  Client threads deserialize concurrently, so build the table here,
+     * while the daemon is still single-threaded (pthread_create orders it before
+     * every client thread). */
+    (void)nvm_crc32((const uint8_t *)"", 0);
+
     /* Accept loop with poll() for idle timeout */
     int idle_timeout_ms = cfg->idle_timeout_sec > 0
                         ? cfg->idle_timeout_sec * 1000
